@@ -433,6 +433,7 @@ def _hstack_params(shapes, axis):
 
     ishape = list(shapes[0])
     ndim = len(ishape)
+    axis = axis % ndim
     idx = shapes[0][axis]
     indices = []
 
@@ -526,6 +527,7 @@ def _vstack_params(shapes, axis):
 
     oshape = list(shapes[0])
     ndim = len(oshape)
+    axis = axis % ndim
     idx = shapes[0][axis]
     indices = []
 
